@@ -400,7 +400,7 @@ fn fam_wide(t: &mut Tracer, rng: &mut Rng, cx: &Ctx) {
     if rng.chance(1, 2) {
         pats.push(vec![base]); // the single label 0x00 / first character
     }
-    if rng.chance(1, 3) {
+    if rng.chance(1, 2) {
         // a wide ROOT: one-label patterns for almost the whole alphabet fill block 0 completely
         let nroot = if var == Var::B { rng.range(230, 254) } else { rng.range(200, 290) };
         let mut all: Vec<u32> = (0..universe).collect();
@@ -568,7 +568,16 @@ fn fam_miri(t: &mut Tracer, rng: &mut Rng, _cx: &Ctx) {
         let spec = BuildSpec { var, kind, entry: "new", via_builder: true, nfb: 1, pats };
         let (h, pma) = ev_build::<u32>(t, &spec, &[]);
         let Some(pma) = pma else { continue };
-        let hays: Vec<Rc<Vec<u8>>> = (0..2).map(|_| Rc::new(gen_haystack(rng, var, &alpha, 9, &spec.pats))).collect();
+        let mut hays: Vec<Rc<Vec<u8>>> = (0..2).map(|_| Rc::new(gen_haystack(rng, var, &alpha, 9, &spec.pats))).collect();
+        if var == Var::B {
+            // exactly 8 bytes: handed over as [u8; 8] by value (bytes stored inline in the iterator)
+            let mut h8 = hays[0].as_ref().clone();
+            while h8.len() < 8 {
+                h8.push(*rng.pick(&alpha.pat) as u8);
+            }
+            h8.truncate(8);
+            hays[0] = Rc::new(h8);
+        }
         for hay in &hays {
             for m in kind.methods() {
                 ev_search(t, h, &pma, m, "slice", hay, 0);
@@ -1047,7 +1056,7 @@ pub fn family_of(prop: &str, i: u64) -> &'static str {
         },
         "C04" | "C15" => match i % 12 {
             11 => "dict",
-            4 => "wide",
+            4 | 0 => "wide",
             8 => "chain",
             2 | 6 | 9 => "shadow",
             _ => "small",
